@@ -73,6 +73,11 @@ func sameArray(a, b any) bool { return true } // a is b extended in place: same 
 // suffixOf: a is a suffix of b (same backing array, same end).
 func suffixOf(a, b any) bool { return true }
 
+// viewOf: b's content is exactly s[p:p+len(b)] (b comes from converting s and re-slicing).
+func viewOf(b []byte, s string, p int) bool {
+	return p >= 0 && p+len(b) <= len(s) && string(b) == s[p:p+len(b)]
+}
+
 // disjointFromTail: the elements of v do not overlap the spare capacity b[len(b):cap(b)].
 func disjointFromTail(v, b any) bool { return true }
 
@@ -81,4 +86,4 @@ func bytesEq[A, B ~[]byte | ~string](a A, b B) bool { return string(a) == string
 // loopIndex names the hidden index of the innermost enclosing range loop in loop invariants.
 var loopIndex int
 
-var _ = []any{requires, ensures, ensuresGoal, assert, assume, imp, iff, forall, exists, modifiesTail, modifiesElems, modifiesPtr, modifiesAll, freshSlice, sameBase, sameArray, disjointFromTail, suffixOf, loopIndex}
+var _ = []any{requires, ensures, ensuresGoal, assert, assume, imp, iff, forall, exists, modifiesTail, modifiesElems, modifiesPtr, modifiesAll, freshSlice, sameBase, sameArray, disjointFromTail, suffixOf, viewOf, loopIndex}
